@@ -25,6 +25,9 @@ type C15Case struct {
 	Macro   bool     `json:"macro,omitempty"`   // argument passed as %{tx.k}
 	Phrases []string `json:"phrases,omitempty"` // for pm family
 	Form    string   `json:"form,omitempty"`    // pm | pmFromDataset | pmFromFile
+	// PreFilter: @rx built with SecRxPreFilter On (the predicate is the same in either setting)
+	PreFilter bool `json:"prefilter,omitempty"`
+	Grammar   bool `json:"grammar,omitempty"` // pattern drawn from the regexp grammar / CRS instead of the fixed list
 }
 
 var c15WAF = corazawaf.NewWAF()
@@ -194,11 +197,25 @@ func genC15(t *rapid.T) *C15Case {
 	case "rx":
 		c.Op = "rx"
 		pats := []string{"abc", "^abc$", "a.c", "a.*c", "(a)(b)(c)", "^(a|b)+$", "(?i)select", "sel(ect)?", "^$", "x$", "^x", "(\\d+)-(\\d+)",
-			"(a)(b)(c)(d)(e)(f)(g)(h)(i)(j)", "(a)(b)(c)(d)(e)(f)(g)(h)(i)", "(a)(b)(c)(d)(e)(f)(g)(h)(i)(j)(k)(l)", "(a)|(b)", "(x)?y", "[^a]b", "a\\.b", "\\bunion\\b"}
+			"(a)(b)(c)(d)(e)(f)(g)(h)(i)(j)", "(a)(b)(c)(d)(e)(f)(g)(h)(i)", "(a)(b)(c)(d)(e)(f)(g)(h)(i)(j)(k)(l)", "(a)|(b)", "(x)?y", "[^a]b", "a\\.b", "\\bunion\\b",
+			// anchored literals, non-ASCII classes and literals (an invalid byte is one U+FFFD-wide character to RE2)
+			"^Upload$", "(?i)^upload$", "^0$", "[^\\x00-\\x7f]", "id=[^\\x00-\\x7f]{2}", "é+", "[à-ü]x", "\\p{Greek}+", "(?i)straße", "^(?:ab|ac)d", "(?i)k+"}
 		c.Arg = rapid.SampledFrom(pats).Draw(t, "pat")
-		ins := []string{"abc", "ABC", "a\nc", "ac", "abcabc", "select", "SELECT * ", "sel", "", "x", "y", "xy", "ax\nx", "x\nb", "12-345", "abcdefghij", "abcdefghi", "abcdefghijkl", "a", "b", "zb", "ab", "a.b", "aXb", "a union b", "reunion"}
+		ins := []string{"abc", "ABC", "a\nc", "ac", "abcabc", "select", "SELECT * ", "sel", "", "x", "y", "xy", "ax\nx", "x\nb", "12-345", "abcdefghij", "abcdefghi", "abcdefghijkl", "a", "b", "zb", "ab", "a.b", "aXb", "a union b", "reunion",
+			"\xff", "id=\xe9\xe8", "é", "éé", "àx", "a\xffb", "αβγ", "first\nUpload", "\nUpload", "Upload\nmore", "Upload", "upload", "0", "\n0", "STRASSE", "straſe", "\u212a", "acd", "abd\n"}
 		c.Input = []byte(perturb(t, rapid.SampledFrom(ins).Draw(t, "in")))
+		if rapid.IntRange(0, 2).Draw(t, "grammar") == 0 {
+			// pattern and input from the C11 generators (regexp/syntax grammar, bundled CRS patterns); patterns that take
+			// the byte-oriented matcher (\x escapes, invalid UTF-8) are left to C11: Go's regexp is not their specification
+			g := genC11(t)
+			if _, err := regexp.Compile("(?sm)" + g.Pattern); err == nil && utf8.ValidString(g.Pattern) && !strings.Contains(g.Pattern, "\\x") && len(g.Inputs) > 0 {
+				c.Arg = g.Pattern
+				c.Input = g.Inputs[rapid.IntRange(0, len(g.Inputs)-1).Draw(t, "gin")]
+				c.Grammar = true
+			}
+		}
 		c.Capture = rapid.Bool().Draw(t, "capture")
+		c.PreFilter = rapid.Bool().Draw(t, "prefilter")
 	}
 	if c.Form == "" && c.Op != "" && len(c.Phrases) == 0 && c.Op == "pm" {
 		c.Form = "pm"
@@ -477,7 +494,7 @@ func c15Expected(c *C15Case) (match bool, caps []string, hasCaps bool) {
 }
 
 func c15Build(c *C15Case, tx *corazawaf.Transaction) (plugintypes.Operator, error) {
-	opts := plugintypes.OperatorOptions{Arguments: c.Arg}
+	opts := plugintypes.OperatorOptions{Arguments: c.Arg, RxPreFilterEnabled: c.PreFilter}
 	if c.Macro {
 		tx.Variables().TX().Set("k", []string{c.Arg})
 		opts.Arguments = "%{tx.k}"
@@ -554,6 +571,12 @@ func checkC15(c *C15Case) Result {
 		res.Labels = append(res.Labels, "capture-checked")
 	}
 	res.Labels = append(res.Labels, "op:"+c.Op)
+	if c.PreFilter {
+		res.Labels = append(res.Labels, "rx-with-prefilter")
+	}
+	if c.Grammar {
+		res.Labels = append(res.Labels, "rx-grammar-pattern")
+	}
 	if want {
 		res.Labels = append(res.Labels, "match:"+c.Op)
 	} else {
@@ -586,6 +609,9 @@ func checkC15Rule(c *C15Case) Result {
 		opName = "pmFromDataset"
 		arg = "ds"
 		pre = "SecDataset ds `\n" + strings.Join(c.Phrases, "\n") + "\n`\n"
+	}
+	if c.PreFilter {
+		pre = "SecRxPreFilter On\n" + pre
 	}
 	if !safeArg(arg) && arg != "" {
 		res.Labels = append(res.Labels, "skipped-unquotable-argument")
